@@ -1,6 +1,7 @@
 import Mkts.Proto
 import Mkts.Model.Store
 import Mkts.Model.VStore
+import Mkts.Model.Project
 /-!
 Driver for the `store` op: one line = a scenario of API calls against one server instance
 (`store <nowYear> <step> <step> …`, see go/harness/instance.go):
@@ -30,6 +31,8 @@ structure Bucket where
   vpending : List VCmd := []
   /-- every variable-length row written so far (for the C09 predicate) -/
   vwritten : List VRow := []
+  /-- every fixed-length request written so far (for the last-writer-wins spec) -/
+  hist : List (List Row) := []
 
 /-- the tick encoder / repaired decoder of the code, with IEEE round-to-nearest-even -/
 def tickFns : TickFns :=
@@ -38,7 +41,18 @@ def tickFns : TickFns :=
       let d := Mkts.Ticks.getTimeFromTicksFixed Mkts.Ticks.rne start ipd ticks
       (d.sec, d.nanos) }
 
-def renderVRows (hdr : List String) (rows : List VRow) : String :=
+/-- `ColumnSeries.AddColumn` makes a repeated column name unique: the second `c` becomes `c0`,
+    the third `c1`, … (the wire dataset is converted back through it) -/
+def uniqNames : List String → List String → List (String × Nat) → List String
+  | [], acc, _ => acc.reverse
+  | n :: rest, acc, cnt =>
+    if acc.contains n then
+      let k := match cnt.find? (·.1 == n) with | some p => p.2 + 1 | none => 0
+      uniqNames rest ((n ++ toString k) :: acc) ((n, k) :: cnt.filter (·.1 != n))
+    else uniqNames rest (n :: acc) cnt
+
+def renderVRows (hdr0 : List String) (rows : List VRow) : String :=
+  let hdr := uniqNames hdr0 [] []
   if rows.isEmpty then "0[]" else
   s!"{rows.length}[{",".intercalate hdr}]" ++
     "+".intercalate (rows.map (fun r => s!"{r.sec},{r.nanos},{bytesToHex r.payload}"))
@@ -94,16 +108,13 @@ def find (bs : List Bucket) (key : String) : Option Bucket := bs.find? (fun b =>
 def replace (bs : List Bucket) (b : Bucket) : List Bucket :=
   if (find bs b.key).isSome then bs.map (fun x => if x.key == b.key then b else x) else bs ++ [b]
 
-/-- cut the requested columns out of a payload (`Project`: requested order, unknown names dropped) -/
+/-- cut the requested columns out of a payload (`Project`: requested order, unknown names dropped):
+    `Mkts.Project.projectPayload`, the function `Props/C13` is about -/
 def project (cols : List Col) (want : List String) (payload : Bytes) : Bytes :=
-  let offs := cols.foldl (fun (acc : List (String × Nat × Nat) × Nat) c =>
-    let sz := (typeSize c.ty).getD 0
-    (acc.1 ++ [(c.name, acc.2, sz)], acc.2 + sz)) ([], 0)
-  want.foldl (fun out w => match offs.1.find? (fun e => e.1 == w) with
-    | some e => out ++ (payload.drop e.2.1).take e.2.2
-    | none => out) []
+  Mkts.Project.projectPayload (cols.map (fun c => (c.name, (typeSize c.ty).getD 0))) want payload
 
-def renderRows (hdr : List String) (rows : List Row) : String :=
+def renderRows (hdr0 : List String) (rows : List Row) : String :=
+  let hdr := uniqNames hdr0 [] []
   if rows.isEmpty then "0[]" else
   s!"{rows.length}[{",".intercalate hdr}]" ++
     "+".intercalate (rows.map (fun r => s!"{r.sec},0,{bytesToHex r.payload}"))
@@ -146,7 +157,7 @@ def step (bs : List Bucket) (st : String) : Option (List Bucket × String × Opt
         pure (replace bs b', "W=ok", none, [])
       else
         let req := rws.map (fun r => (⟨r.1, r.2.2⟩ : Row))
-        let b' := { b with slots := Store.applyCmds b.slots (Store.writeRecords b.tf req) }
+        let b' := { b with slots := Store.applyCmds b.slots (Store.writeRecords b.tf req), hist := b.hist ++ [req] }
         pure (replace bs b', "W=ok", none, [])
   | ["Q", key, ss, sn, es, en, lim, dir, cols] => do
     let (sym, tfs, ag) ← keyTf key
@@ -172,7 +183,7 @@ def step (bs : List Bucket) (st : String) : Option (List Bucket × String × Opt
           let rows := VStore.query tickFns b.tf b.vslots q
           let out := rows.map (fun r => { r with payload := project b.cols want r.payload })
           let unrestricted := q.start.isNone && q.stop.isNone && q.limit.isNone
-          let vflag := if unrestricted && cols == "-" then
+          let vflag := if unrestricted && cols == "-" && !b.vwritten.isEmpty then
               (if c09ok b.tf b.vwritten rows then ";V=ok" else ";V=bad") else ""
           -- the property for ranged / limited queries is relative to the unrestricted result
           let all := VStore.query tickFns b.tf b.vslots ⟨none, none, none⟩
@@ -184,14 +195,28 @@ def step (bs : List Bucket) (st : String) : Option (List Bucket × String × Opt
           let specTok := if unrestricted then "*" else
             "Q=" ++ renderVRows want (lim'.map (fun r => { r with payload := project b.cols want r.payload }))
           let hyps := (if q.limit.isSome && out != lim'.map (fun r => { r with payload := project b.cols want r.payload })
-                        then ["var_limit_counts_intervals"] else []) ++ rerouted
+                        then ["var_limit_counts_intervals"] else []) ++
+                      (if b.tf == dayNs && b.vslots.any (fun kv => kv.1.2 == 0) then ["oneD_jan1"] else []) ++ rerouted
           pure (bs, "Q=" ++ renderVRows want out ++ vflag, some specTok, hyps)
         else
         -- a LAST-direction scan without a limit cannot be asked through this API (limit 0 = none = FIRST)
         let rows := Store.query b.tf b.slots q
         let out := rows.map (fun r => { r with payload := project b.cols want r.payload })
         let hyps := (if b.tf == dayNs && b.slots.any (fun kv => kv.1.2 == 0) then ["oneD_jan1"] else []) ++ rerouted
-        pure (bs, "Q=" ++ renderRows want out, none, hyps)
+        -- the property: rows of the last-writer-wins map whose interval start lies in
+        -- [start of the interval containing start, end], first / last N
+        let all := specAll b.tf b.hist
+        let inr := all.filter (fun r =>
+          let t := nsOfSec r.sec
+          (match q.start with
+            | none => true
+            | some st => decide (indexToTime utc (timeToIndex utc st b.tf) b.tf (localYear utc st) ≤ t)) &&
+          (match q.stop with | none => true | some e => decide (t ≤ e)))
+        let limited := match q.limit with
+          | none => inr | some (n, true) => inr.take n | some (n, false) => takeLast n inr
+        let specTok := if qkey != key then none else
+          some ("Q=" ++ renderRows want (limited.map (fun r => { r with payload := project b.cols want r.payload })))
+        pure (bs, "Q=" ++ renderRows want out, specTok, hyps)
   | ["R"] =>
     -- abrupt restart: the old WAL is replayed in full (no checkpoint was taken in this mode):
     -- idempotent for fixed-length files, appends AGAIN for variable-length ones
@@ -215,11 +240,81 @@ def step (bs : List Bucket) (st : String) : Option (List Bucket × String × Opt
     | some _ => pure (bs.filter (fun b => b.key != key), "D=ok", none, [])
   | _ => none
 
+/-- multi-symbol queries (`S0,S1/tf/ag`, `*/tf/ag`): every present symbol is evaluated exactly as a
+    query for that symbol alone (`executeQuery` restricts the catalog walk to the listed symbols and
+    reads each bucket independently); the wire dataset requires equal column names. -/
+def stepM (bs : List Bucket) (st : String) : Option (List Bucket × String × Option String × List String) :=
+  match st.splitOn ":" with
+  | ["Q", key, ss, sn, es, en, lim, dir, cols] =>
+    match keyTf key with
+    | some (sym, tfs, ag) =>
+      if sym.contains ',' || sym == "*" then
+        match parseTf tfs with
+        | none => some (bs, "Q=err:timeframe", none, [])
+        | some d =>
+          let listed := if sym == "*" then ((bs.filterMap (fun b => (keyTf b.key).map (·.1))).eraseDups)
+                        else sym.splitOn ","
+          let syms := listed.eraseDups
+          let present := syms.filter (fun sy => (find bs s!"{sy}/{queryableTimeframe d}/{ag}").isSome)
+          -- a symbol listed m times is added m times to the restriction list: its year files are
+          -- scanned m times each (files sorted by year), every row comes back m times
+          let dupd := present.filter (fun sy => (listed.filter (· == sy)).length > 1)
+          let evalOne := fun (sy : String) =>
+            let k := s!"{sy}/{tfs}/{ag}"
+            let m := (listed.filter (· == sy)).length
+            if m ≤ 1 then (step bs (":".intercalate ["Q", k, ss, sn, es, en, lim, dir, cols])).map (fun r => (k, r))
+            else
+              match find bs k, step bs (":".intercalate ["Q", k, ss, sn, es, en, "-", "-", cols]),
+                    step bs (":".intercalate ["Q", k, ss, sn, es, en, lim, dir, cols]) with
+              | some b, some _, some single =>
+                if b.isVar then none else
+                let q0 : Query := { start := (optInt ss).join.map (fun x => x * nsPerSec + ((optInt sn).join).getD 0),
+                                    stop := (optInt es).join.map (fun x => x * nsPerSec + ((optInt en).join).getD 0), limit := none }
+                let rows := Store.query b.tf b.slots q0
+                let years := (rows.map (fun r => localYear utc (nsOfSec r.sec))).eraseDups
+                let rep := (years.map (fun y =>
+                  let g := rows.filter (fun r => localYear utc (nsOfSec r.sec) == y)
+                  (List.replicate m g).flatten)).flatten
+                let lim' := match (if lim == "-" then none else parseNat lim) with
+                  | none => rep
+                  | some 0 => rep
+                  | some n => if dir == "F" then rep.take n else takeLast n rep
+                let want := if cols == "-" then b.cols.map (·.name) else
+                  (cols.splitOn ",").filter (fun w => b.cols.any (fun c => c.name == w))
+                let out := lim'.map (fun r => { r with payload := project b.cols want r.payload })
+                some (k, (bs, "Q=" ++ renderRows want out, single.2.2.1, single.2.2.2 ++ ["symbol_listed_twice"]))
+              | _, _, _ => none
+          let evals := present.filterMap evalOne
+          let _ := dupd
+          if evals.length != present.length then none else
+          match evals with
+          | [] => some (bs, "Q=err:nofiles", none, [])
+          | [(_, r)] => some r
+          | _ =>
+            let names := evals.map (fun e => match find bs e.1 with
+              | some b => if cols == "-" then b.cols.map (·.name) else
+                  (cols.splitOn ",").filter (fun w => b.cols.any (fun c => c.name == w))
+              | none => [])
+            if names.any (· != names.headD []) then some (bs, "Q=err:symbolschema", none, []) else
+            let sorted := sortStrings (evals.map (·.1))
+            let body := fun (pick : (List Bucket × String × Option String × List String) → String) =>
+              "Q=" ++ "&".intercalate (sorted.map (fun k => match evals.find? (·.1 == k) with
+                | some e => k ++ "~" ++ String.ofList ((pick e.2).toList.drop 2)
+                | none => k))
+            let m := body (fun r => r.2.1)
+            -- `*` (unrestricted variable-length query: judged by the V verdict) keeps the model's rows
+            let sp := body (fun r => match r.2.2.1 with | some "*" => r.2.1 | some o => o | none => r.2.1)
+            let hy := (evals.map (fun e => e.2.2.2.2)).flatten
+            some (bs, m, some (if sp.contains '*' then m else sp), hy)
+      else step bs st
+    | none => step bs st
+  | _ => step bs st
+
 def runSteps : List Bucket → List String → List String → List (Option String) → List String →
     Option (List String × List (Option String) × List String)
   | _, [], out, ov, hy => some (out.reverse, ov.reverse, hy)
   | bs, st :: rest, out, ov, hy =>
-    match step bs st with
+    match stepM bs st with
     | none => none
     | some (bs', r, o, h) => runSteps bs' rest (r :: out) (o :: ov) (hy ++ h)
 
